@@ -283,3 +283,208 @@ Proof.
   destruct (map gate_of clauses); reflexivity.
 Qed.
 Print Assumptions C18_dimacs_cnf_roundtrip.
+
+(** ** Order / clause trees and the variable-order preamble (C18q): model of util::tree,
+       util::var_order_record and the [if parse_var_order ..] branch of nnf::preamble /
+       dimacs::preamble (IO/TreeParse.v) *)
+From OxiVerif Require Import IO.TreeParse IO.TreeProofs IO.GateAcyclicProofs IO.PreambleProofs IO.PreambleRtProofs.
+From Coq Require Import Permutation Relations.
+Local Open Scope N_scope.
+
+(** totality of the tree reader: never the fuel value (fuel = 2 * length + 1 for the two mutually
+    recursive functions), for both flags and ALL byte strings *)
+Theorem C18_tree_total : forall (ob uq : bool) (bs : list N), p_tree ob uq bs <> PFuel.
+Proof. exact p_tree_total. Qed.
+Print Assumptions C18_tree_total.
+
+(** the short cut in the model's "number missing in tree" test does not change its value *)
+Theorem C18_tree_bitset_complete_spec : forall ins,
+  ins_complete ins = forallb (fun i => memN i ins) (seqN 0 (list_maxN ins + 1)).
+Proof. exact ins_complete_spec. Qed.
+Print Assumptions C18_tree_bitset_complete_spec.
+
+(** every accepted tree has a leaf, the reported maximum is the maximal leaf, every number up to
+    it occurs, and with [unique_leaves] none occurs twice *)
+Theorem C18_tree_accept : forall ob uq bs t mx r, p_tree ob uq bs = POk (t, mx, r) ->
+  flatten t <> [] /\ mx = list_maxN (flatten t) /\
+  (forall i, i <= mx <-> In i (flatten t)) /\
+  (uq = true -> NoDup (flatten t)).
+Proof. exact p_tree_accept. Qed.
+Print Assumptions C18_tree_accept.
+
+(** order tree ([unique_leaves]): the flattened order is a permutation of the variables mentioned,
+    which are exactly 0 .. max *)
+Theorem C18_tree_order_perm : forall ob bs t mx r, p_tree ob true bs = POk (t, mx, r) ->
+  Permutation (flatten t) (seqN 0 (mx + 1)) /\ lenN (flatten t) = mx + 1.
+Proof. exact p_tree_perm. Qed.
+Print Assumptions C18_tree_order_perm.
+
+(** round trip of util::tree for every printable tree (numbers within MAX_CAPACITY, no inner
+    node with exactly one child, at least one leaf, leaves cover 0 .. max, distinct if required) *)
+Theorem C18_tree_roundtrip : forall ob uq t rest, tree_top_ok_b ob uq t = true ->
+  nodigit rest -> space0 rest = rest ->
+  p_tree ob uq (print_tree ob t ++ rest) = POk (t, list_maxN (flatten t), rest).
+Proof. exact p_tree_print. Qed.
+Print Assumptions C18_tree_roundtrip.
+
+(** totality of the preamble loop: fuel above the input length is never exhausted, whatever the
+    options ([co = None]: NNF, [Some b]: DIMACS with clause_tree = b) and the state *)
+Theorem C18_tree_preamble_total : forall co f st bs, (length bs < f)%nat -> pre_loop f co st bs <> PFuel.
+Proof. exact pre_loop_nofuel. Qed.
+Print Assumptions C18_tree_preamble_total.
+
+(** the variable set of every accepted preamble satisfies the three assertions of
+    VarSet::check_valid and has no name beyond the number of variables; its linear order is empty
+    or a permutation of ALL variables, and equal to the flattened tree if there is one *)
+Theorem C18_tree_varset_valid : forall co f bs st r nv,
+  pre_loop f co ps_init bs = POk (st, r) -> pre_before st = true -> pre_after st nv = true ->
+  ((vs_order (varset_of st nv) = [] \/ lenN (vs_order (varset_of st nv)) = vs_len (varset_of st nv)) /\
+   (vs_order (varset_of st nv) = [] -> vs_tree (varset_of st nv) = None) /\
+   (vs_names (varset_of st nv) = [] \/ last (vs_names (varset_of st nv)) None <> None) /\
+   lenN (vs_names (varset_of st nv)) <= vs_len (varset_of st nv)) /\
+  ((vs_order (varset_of st nv) = [] \/ Permutation (vs_order (varset_of st nv)) (seqN 0 (vs_len (varset_of st nv)))) /\
+   (forall t, vs_tree (varset_of st nv) = Some t -> vs_order (varset_of st nv) = flatten t)).
+Proof. exact pre_loop_varset. Qed.
+Print Assumptions C18_tree_varset_valid.
+
+(** round trip of the preamble: the lines written for a well-formed variable set (order tree and /
+    or one record per variable, names) are read back as that variable set *)
+Theorem C18_tree_preamble_roundtrip : forall co vs R, wf_vars_b vs = true -> starts_with 99 R = false ->
+  exists st, pre_loop (S (length (print_vars vs ++ R))) co ps_init (print_vars vs ++ R) = POk (st, R) /\
+             pre_before st = true /\ pre_after st (vs_len vs) = true /\ varset_of st (vs_len vs) = vs.
+Proof. exact pre_loop_print_vars. Qed.
+Print Assumptions C18_tree_preamble_roundtrip.
+
+(** the acyclicity test for gates of any arity (the model's counterpart of Circuit::find_cycle)
+    is sound, and complete on topologically ordered lists *)
+Theorem C18_tree_acyclic_g_sound : forall gates, acyclic_g gates = true ->
+  forall g, ~ clos_trans nat (reads_g gates) g g.
+Proof. exact acyclic_g_sound. Qed.
+Print Assumptions C18_tree_acyclic_g_sound.
+
+Theorem C18_tree_acyclic_g_topo : forall gates,
+  (forall k x s h, nth_error gates k = Some x -> In (ALGate s h) (snd x) -> (N.to_nat h < k)%nat) ->
+  acyclic_g gates = true.
+Proof. exact acyclic_g_topo. Qed.
+Print Assumptions C18_tree_acyclic_g_topo.
+
+(** ** NNF reader (C18q): model of nnf::parse (IO/NnfParse.v) *)
+From OxiVerif Require Import IO.NnfParse IO.NnfProofs IO.NnfRtProofs.
+
+(** totality: a problem or a diagnostic for ALL byte strings, both values of var_order and
+    check_acyclic *)
+Theorem C18_nnf_total : forall (vo ca : bool) (bs : list N), parse_nnf vo ca bs <> PFuel.
+Proof. exact parse_nnf_total. Qed.
+Print Assumptions C18_nnf_total.
+
+(** every accepted file: valid variable set (as C18_tree_varset_valid), every gate has an input,
+    every gate input is a constant, an input literal below the number of variables or a positive
+    reference to an EXISTING gate, the root is the last node (constant, input literal, or the last
+    gate), and with check_acyclic no gate depends on itself.  The code does not require node
+    references to point backwards (see C18_nnf_forward_reference_accepted), so "acyclic" is what
+    holds, and only with check_acyclic. *)
+Theorem C18_nnf_accept : forall vo ca bs p, parse_nnf vo ca bs = POk p ->
+  let nv := vs_len (rp_vars p) in
+  let ng := lenN (rp_gates p) in
+  varset_valid (rp_vars p) /\ varset_order_ok (rp_vars p) /\
+  (forall g, In g (rp_gates p) -> snd g <> [] /\ forallb (nnf_lit_ok_b nv ng) (snd g) = true) /\
+  nnf_root_ok_b nv ng (rp_root p) = true /\
+  (ca = true -> acyclic_g (rp_gates p) = true /\ forall g, ~ clos_trans nat (reads_g (rp_gates p)) g g).
+Proof. exact parse_nnf_accept. Qed.
+Print Assumptions C18_nnf_accept.
+
+Theorem C18_nnf_forward_reference_accepted :
+  parse_nnf false true forward_ref_file
+  = POk (mkRProblem (varset_new 1) [(DAnd, [ALIn false 0])] (ALIn false 0)).
+Proof. exact forward_ref_accepted. Qed.
+Print Assumptions C18_nnf_forward_reference_accepted.
+
+(** round trips: for every well-formed problem (decidable wf_nnf_b: gates with >= 1 input, literals
+    in range, positive gate references -- forward ones allowed --, root = constant / input literal /
+    last gate, acyclic if check_acyclic, sizes within MAX_CAPACITY) parse (print p) = Ok p;
+    without var_order for a plain variable set, with var_order for any well-formed variable set *)
+Theorem C18_nnf_roundtrip : forall ca p, wf_nnf_b ca p = true -> rp_vars p = varset_new (vs_len (rp_vars p)) ->
+  parse_nnf false ca (print_nnf p) = POk p.
+Proof. exact parse_print_nnf. Qed.
+Print Assumptions C18_nnf_roundtrip.
+
+Theorem C18_nnf_roundtrip_var_order : forall ca p, wf_nnf_b ca p = true -> wf_vars_b (rp_vars p) = true ->
+  parse_nnf true ca (print_nnf_vo p) = POk p.
+Proof. exact parse_print_nnf_vo. Qed.
+Print Assumptions C18_nnf_roundtrip_var_order.
+
+(** the hypotheses hold for a concrete problem: order tree, names, a forward reference, all gate kinds *)
+Theorem C18_nnf_wf_example :
+  wf_nnf_b true ex_nnf = true /\ wf_vars_b (rp_vars ex_nnf) = true /\
+  parse_nnf true true (print_nnf_vo ex_nnf) = POk ex_nnf.
+Proof. exact ex_nnf_wf. Qed.
+Print Assumptions C18_nnf_wf_example.
+
+(** ** Complete DIMACS reader (C18q): cnf / sat / satx / sate / satex, variable orders, order and
+       clause trees, all option combinations (IO/DimacsSatParse.v) *)
+From OxiVerif Require Import IO.DimacsSatParse IO.DimacsSatProofs IO.DimacsRtProofs.
+
+(** totality for ALL byte strings and all options *)
+Theorem C18_sat_total : forall (vo ct : bool) (bs : list N), parse_dimacs vo ct bs <> PFuel.
+Proof. exact parse_dimacs_total. Qed.
+Print Assumptions C18_sat_total.
+
+(** every accepted DIMACS file has a valid variable set (as C18_tree_varset_valid) *)
+Theorem C18_sat_accept_varset : forall vo ct bs p, parse_dimacs vo ct bs = POk p ->
+  varset_valid (rp_vars p) /\ varset_order_ok (rp_vars p).
+Proof. exact parse_dimacs_varset. Qed.
+Print Assumptions C18_sat_accept_varset.
+
+(** round trip of the SAT formats: [p <fmt> <n>\n<formula>\n] is read back as exactly the circuit
+    sat::formula builds (nested n-ary * + xor =, negated variables, -( ), ( ); empty and unary
+    operators; '=' with an even number of operands negated).  The operators allowed are the ones
+    the code allows for the file's format: xor for satx/satex, '=' for satex only -- the code
+    reads 'sate' with eq = false (const SATE), see C18_sat_sate_rejects_eq *)
+Theorem C18_sat_roundtrip : forall ax ae nv f, nv <= max_capacity -> sform_ok_b ax (andb ax ae) nv f = true ->
+  parse_dimacs false false (print_sat_body ax ae nv f) = POk (sat_problem (varset_new nv) f).
+Proof. exact sat_roundtrip. Qed.
+Print Assumptions C18_sat_roundtrip.
+
+Theorem C18_sat_roundtrip_var_order : forall vo ct vars ax ae f,
+  orb vo ct = true -> wf_vars_b vars = true -> sform_ok_b ax (andb ax ae) (vs_len vars) f = true ->
+  parse_dimacs vo ct (print_dimacs_vo vars None (print_sat_body ax ae (vs_len vars) f))
+  = POk (sat_problem vars f).
+Proof. exact sat_roundtrip_vo. Qed.
+Print Assumptions C18_sat_roundtrip_var_order.
+
+(** model = code: a 'p sate' file that uses '=' gets a diagnostic, the same formula in a 'p satex'
+    file is accepted (a wrong diagnostic of the code, not a panic: outside the property text) *)
+Theorem C18_sat_sate_rejects_eq :
+  parse_dimacs false false (print_sat_body false true 1 (SOp OpEq [SLit false 0; SLit false 0])) = PErr /\
+  parse_dimacs false false (print_sat_body true true 1 (SOp OpEq [SLit false 0; SLit false 0]))
+  = POk (mkRProblem (varset_new 1) [(DXor, [ALIn false 0; ALIn false 0])] (ALGate true 0)).
+Proof. exact (conj sate_rejects_eq satex_accepts_eq). Qed.
+Print Assumptions C18_sat_sate_rejects_eq.
+
+(** CNF through the complete model: without options, and behind a preamble with variable order
+    and / or clause tree -- the result is the circuit cnf::parse builds, with the AND gates of
+    make_conj_tree along the clause tree *)
+Theorem C18_sat_cnf_roundtrip : forall nv clauses, nv <= max_capacity -> clauses_ok nv clauses ->
+  parse_dimacs false false (print_cnf nv clauses) = cnf_result (varset_new nv) None (map gate_of clauses).
+Proof. exact cnf_roundtrip_plain. Qed.
+Print Assumptions C18_sat_cnf_roundtrip.
+
+Theorem C18_sat_cnf_roundtrip_trees : forall vo ct vars ctree clauses,
+  orb vo ct = true -> wf_vars_b vars = true -> clauses_ok (vs_len vars) clauses ->
+  ctree_ok ct ctree FCnf (lenN clauses) ->
+  parse_dimacs vo ct (print_dimacs_vo vars ctree (print_cnf (vs_len vars) clauses))
+  = cnf_result vars ctree (map gate_of clauses).
+Proof. exact cnf_roundtrip_vo. Qed.
+Print Assumptions C18_sat_cnf_roundtrip_trees.
+
+(** the hypotheses hold for a concrete file: order tree, a name, XOR and unit clauses, a clause
+    tree that uses a clause twice *)
+Theorem C18_sat_cnf_example :
+  wf_vars_b ex_vars = true /\ clauses_ok 2 ex_clauses /\ ctree_ok true (Some ex_ctree) FCnf 3 /\
+  parse_dimacs true true (print_dimacs_vo ex_vars (Some ex_ctree) (print_cnf 2 ex_clauses))
+  = POk (mkRProblem ex_vars
+           [(DOr, [ALIn false 0; ALIn true 1]); (DXor, [ALIn false 0; ALIn false 1]);
+            (DAnd, [ALGate false 0; ALIn true 0]); (DAnd, [ALGate false 2; ALGate false 1; ALGate false 0])]
+           (ALGate false 3)).
+Proof. exact ex_cnf_hyps. Qed.
+Print Assumptions C18_sat_cnf_example.
